@@ -17,9 +17,12 @@ func newAttributesInfo(attributes []px.Attribute, requiredCount int, equality []
 		posToName[ix] = at.Name()
 	}
 
-	ei := make([]int, len(equality))
-	for ix, e := range equality {
-		ei[ix] = nameToPos[e]
+	// Equality attributes that are not constructor attributes (kind derived) have no position
+	ei := make([]int, 0, len(equality))
+	for _, e := range equality {
+		if ix, ok := nameToPos[e]; ok {
+			ei = append(ei, ix)
+		}
 	}
 
 	return &attributesInfo{attributes: attributes, nameToPos: nameToPos, equalityAttributeIndexes: ei, requiredCount: requiredCount}
